@@ -279,11 +279,11 @@ class Pool:
 _LOCAL: Dict[str, Dict[str, "Pool"]] = {}
 
 
-def local_pools(configs: Sequence[Dict[str, Any]], handler_ref: str, n_each: int = 1) -> Dict[str, "Pool"]:
+def local_pools(configs: Sequence[Dict[str, Any]], handler_ref: str, n_each: int = 1, tag: str = "") -> Dict[str, "Pool"]:
     """Per-process cache of one Pool per configuration (used by forked driver
     processes: each driver owns its own children; they exit when the driver's
     end of their stdin pipe closes)."""
-    key = handler_ref + "|" + str(os.getpid())
+    key = handler_ref + "|" + tag + "|" + str(os.getpid())
     if key not in _LOCAL:
         pools: Dict[str, Pool] = {}
         try:
